@@ -30,6 +30,9 @@ def run(chk, repo, tier):
     chk.clause('C11-b', 'the mask is coerced to bool before any other use', 2)
     chk.clause('C11-c', 'normalised = un-normalised x sqrt(n+1) (m = 0) or sqrt(2)*sqrt(n+1) (m != 0); cosine for m > 0, sine for m < 0', 3)
     chk.clause('C11-d', 'default polar origin = mask centroid for either parity (shift = centroid - floor(n/2))', 2)
+    from .c20 import centroid_rule
+    from .common import Remap
+    centroid_rule(Remap(chk, {'C11-d': 'C11-d'}), repo, 'C11-d')
     chk.clause('C11-e', 'rho is scaled by the largest radius over the mask', 1)
     chk.clause('C11-f', 'radial term is the textbook factorial term, summed over k = 0..(n-m)/2', 2)
     chk.clause('C11-h', 'polar coordinates: isotropic radius of the mesh, angle convention, caller shift honoured', 3)
